@@ -43,6 +43,14 @@ check("C08", "exploration",
       "Trusted: the reference symbolic differentiator (no shared code with autograd), float evaluation at 1e-9.",
       "property-based testing (Hypothesis): generated nested-derivative programs against a symbolic reference differentiator", "DESIGN.md C08")
 
+check("C09", "exploration",
+      "Every complex-capable template with each argument independently real or complex: reverse mode against conj(J_R^T conj g) and forward "
+      "mode against J_R v, J_R from Ridders differentiation of raw NumPy along real and imaginary directions; cotangent complex iff the "
+      "argument is; generated holomorphic programs (holomorphic_grad == complex derivative, Cauchy-Riemann verified on the oracle side), real "
+      "losses of complex parameters, and real->real programs through FFT round trips against purely real implementations.",
+      "Trusted: NumPy's complex primal functions, the Ridders oracle (self-tested), closed-form real implementations of the round-trip programs.",
+      "property-based testing (Hypothesis) with a realified numerical-differentiation oracle and metamorphic real/complex relations", "DESIGN.md C09")
+
 NOT_YET = {}
 
 
